@@ -27,7 +27,19 @@ Only `open(O_EXCL)` creates an entry at `f.lock`, so that entry is named by the 
 structure FS where
   target : Option Ino      -- `f`
   lock : Option Nat        -- `f.lock`  (`some i` = the inode actor `i` created)
+  dir : Bool := true       -- does the PARENT DIRECTORY of `f` and `f.lock` exist (a ref below a fresh
+                           --   `refs/heads/x/`; `remove_if_equals` prunes empty directories without a lock)
   deriving DecidableEq, Repr
+
+/-- nothing in the parent directory (only then can it be removed) -/
+def FS.isEmpty (fs : FS) : Bool := fs.target.isNone && fs.lock.isNone
+
+/-- `mkdir(parent)` / `makedirs(…, exist_ok)`: afterwards the directory exists -/
+def FS.mkdir (fs : FS) : FS := { fs with dir := true }
+
+/-- `rmdir(parent)`: only an existing, empty directory can be removed; `none` = ENOENT / ENOTEMPTY -/
+def FS.rmdir (fs : FS) : Option FS :=
+  if fs.dir && fs.isEmpty then some { fs with dir := false } else none
 
 /-- `open(f.lock, O_CREAT|O_EXCL)` by actor `i`: atomic test-and-create; `none` = EEXIST. -/
 def FS.openExcl (fs : FS) (i : Nat) : Option FS :=
@@ -43,7 +55,7 @@ def FS.openCreat (fs : FS) (i : Nat) : FS := { fs with lock := some i }
 def FS.replace (fs : FS) : Option FS :=
   match fs.lock with
   | none => none
-  | some j => some { target := some (.of j), lock := none }
+  | some j => some { fs with target := some (.of j), lock := none }
 
 /-- `unlink(f.lock)`: removes whatever is at that name; `none` = ENOENT. -/
 def FS.remove (fs : FS) : Option FS :=
